@@ -134,12 +134,14 @@ Theorem C20_unpadded_store_refuted : exists data, Z.even (zlen (lut_bytes 8 data
 Proof. exact unpadded_store_refuted. Qed.
 Print Assumptions C20_unpadded_store_refuted.
 
-(* LUT / VOILUT / ModalityLUT as they are (no pad): even length exactly for
-   16-bit tables and 8-bit tables with an even number of entries *)
-Theorem C20_plain_lut_even_iff : forall bits first data d s, plain_lut bits first data = Ok (d, s) ->
-  (Z.even (zlen s) = true <-> bits = 16%Z \/ Z.even (zlen data) = true).
-Proof. exact plain_lut_even_iff. Qed.
-Print Assumptions C20_plain_lut_even_iff.
+(* LUT / VOILUT / ModalityLUT / PresentationLUT (after fix 90091a0, D93, found by
+   this check): same storage, so even length for every accepted table *)
+Theorem C20_plain_lut_spec : forall bits first data,
+  (plain_lut bits first data = Err "ValueError" <-> plain_ok bits first data = false) /\
+  (forall d s, plain_lut bits first data = Ok (d, s) ->
+     d = lut_descriptor bits first data /\ s = palette_store bits data /\ Z.even (zlen s) = true).
+Proof. exact plain_lut_spec. Qed.
+Print Assumptions C20_plain_lut_spec.
 
 (* ------------------------------------------------------------------ *)
 (* 5. one call that builds several objects (create_segmentation_pyramid):
